@@ -20,6 +20,18 @@ class Unsupported(BaseException):
     """The engine cannot decide this instance (solver unknown, cap, budget) -> inconclusive."""
 
 
+def _raised_by_harness(tb, ex):
+    """an exception whose innermost frame is harness code (a reference construction, an instance body) and that is a
+    programming error of that code -- not a stand-in for an error NumPy would raise -- is a defect of the check, never a
+    finding about the repository"""
+    import os
+
+    if not tb or not isinstance(ex, (NameError, AttributeError, TypeError, KeyError, UnboundLocalError, ImportError)):
+        return False
+    here = os.path.dirname(os.path.dirname(os.path.abspath(__file__)))
+    return os.path.abspath(tb[-1].filename).startswith(os.path.join(here, "harness") + os.sep)
+
+
 class HarnessError(BaseException):
     """The harness/engine itself is inconsistent (non-deterministic replay, shim mismatch)."""
 
@@ -1187,6 +1199,8 @@ class Engine:
 
                         tb = traceback.extract_tb(ex.__traceback__)
                         where = [f"{f.filename.rsplit('/', 1)[-1]}:{f.lineno}:{f.name}" for f in tb[-3:]]
+                        if _raised_by_harness(tb, ex):
+                            raise HarnessError(f"the harness itself raised {type(ex).__name__}: {ex} at {where}")
                         finding = dict(label=f"unexpected {type(ex).__name__}: {str(ex)[:200]}",
                                        site=self.tags.get("site"), values=self.input_values(m),
                                        tags=dict(self.tags), kind="exception", where=where)
